@@ -105,3 +105,29 @@ def log_likelihood_cached(reads: A[f8, 3], genotype: A[i1, 2], read_counts: Opt[
     ensures(implies(cache is not None, COH(result[1], reads, ones_if_none(read_counts), len(genotype), genotype.shape[1], len(reads))))
     with entry():
         lemma_llk_ext(reads, ones_if_none(read_counts), genotype, canon2(genotype, len(genotype), genotype.shape[1]), len(genotype), genotype.shape[1], len(reads))
+
+
+@contract("mchap.assemble.likelihood.log_likelihood_structural_change_cached", machine_ints=True, props=["C09"], opt_result={"1": "cache"})
+def log_likelihood_structural_change_cached(reads: A[f8, 3], genotype: A[i1, 2], haplotype_indices: A[i1, 1], interval: Opt[A[i8, 1]], read_counts: Opt[A[i8, 1]], cache: Opt[ArrayMap]) -> Tup[float, Opt[ArrayMap]]:
+    requires(reads.shape[1] == genotype.shape[1], len(genotype) >= 1)
+    requires(len(haplotype_indices) == len(genotype))
+    requires(forall(0, len(genotype), lambda h: 0 <= haplotype_indices[h] and haplotype_indices[h] < len(genotype)))
+    requires(implies(interval is not None, len(interval) == 2 and 0 <= interval[0] and interval[0] <= interval[1] and interval[1] <= genotype.shape[1]))
+    requires(implies(read_counts is not None, len(read_counts) == len(reads)))
+    requires(forall(0, len(genotype), lambda h: forall(0, genotype.shape[1], lambda j: 0 <= genotype[h, j] and genotype[h, j] < reads.shape[2])))
+    requires(forall(lambda r, j, a: not isninf(reads[r, j, a]) and (isnan(reads[r, j, a]) or reads[r, j, a] >= 0)))
+    requires(implies(read_counts is not None, forall(0, len(reads), lambda r: read_counts[r] >= 0 and implies(read_counts[r] == 0, RP(reads, GP, r, len(genotype), genotype.shape[1], len(genotype)) > 0))))
+    requires(not isninf(LLK(reads, ones_if_none(read_counts), GP, len(genotype), genotype.shape[1], len(reads))))
+    requires(implies(cache is not None, AMOK(cache) and cache[2] == len(genotype) * genotype.shape[1] and cache[0].shape[1] >= reads.shape[2]))
+    requires(implies(cache is not None, COH(cache, reads, ones_if_none(read_counts), len(genotype), genotype.shape[1], len(reads))))
+    modifies(cache)
+    ensures(result[0] == LLK(reads, ones_if_none(read_counts), GP, len(genotype), genotype.shape[1], len(reads)))
+    ensures(implies(cache is not None, AMOK(result[1]) and result[1][2] == cache[2] and result[1][0].shape[1] == cache[0].shape[1]))
+    ensures(implies(cache is not None, COH(result[1], reads, ones_if_none(read_counts), len(genotype), genotype.shape[1], len(reads))))
+    with defs():
+        LO = ite(interval is None, 0, interval[0])
+        HI = ite(interval is None, genotype.shape[1], interval[1])
+        GP = arr2(lambda a, c: SCE(genotype, haplotype_indices, LO, HI, a, c))
+    with after_stmt("structural_change(genotype_new, haplotype_indices=haplotype_indices, interval=interval)"):
+        lemma_llk_ext(reads, ones_if_none(read_counts), genotype_new, GP, len(genotype), genotype.shape[1], len(reads))
+        lemma_llk_ext(reads, ones_if_none(read_counts), genotype_new, canon2(genotype_new, len(genotype), genotype.shape[1]), len(genotype), genotype.shape[1], len(reads))
